@@ -51,10 +51,15 @@ a = run(["git", "-C", "/repo", "apply", os.path.join(dst, "patch.diff")])
 if a.returncode != 0:
     print("patch does not apply to /repo:", a.stderr)
     sys.exit(3)
+# EVIDENCE_KEEP: the evidence file describes the unchanged tree; a run on a seeded tree must not replace it
+evp = os.path.join("/verif/evidence", f"{prop}.json")
+saved = open(evp).read() if os.path.exists(evp) else None
 try:
     chk = run(["./check", prop, "--no-bounded"] + extra, cwd="/verif")
 finally:
     run(["git", "-C", "/repo", "checkout", "--", "."])
+    if saved is not None:
+        open(evp, "w").write(saved)
 lines = [l for l in chk.stdout.splitlines() if l.startswith(("VIOLATION", "UNDECIDED", "KNOWN", prop, "ENGINE", "CRASH"))]
 meta["check"] = {"cmd": f"./check {prop} --no-bounded " + " ".join(extra), "exit": chk.returncode, "lines": lines[-25:]}
 meta["detected"] = chk.returncode == 1
